@@ -68,12 +68,19 @@ def trig(I, x):
     return trig_expr(I, e)
 
 
+COSF = z3.Function('cosf', z3.RealSort(), z3.RealSort())
+SINF = z3.Function('sinf', z3.RealSort(), z3.RealSort())
+ATAN2F = z3.Function('atan2f', z3.RealSort(), z3.RealSort(), z3.RealSort())
+
+
 def _atom(I, e):
+    """cos/sin of an angle atom: uninterpreted functions of the angle term (so equal angles have equal cos/sin by
+    congruence) with the Pythagorean identity instantiated for the atom"""
     key = ('trig', e.get_id())
     c = I.ctx.trig_cache.get(key)
     if c is None:
-        cs = I.ctx.fresh('cos', 'real')
-        sn = I.ctx.fresh('sin', 'real')
+        cs = Sym(COSF(e), 'real')
+        sn = Sym(SINF(e), 'real')
         I.ctx.fact(cs.e * cs.e + sn.e * sn.e == 1)
         c = (cs, sn, e)
         I.ctx.trig_cache[key] = c
@@ -99,7 +106,89 @@ def _pi_multiple(e):
     return None
 
 
+def _linearize(e):
+    """try to rewrite a nonlinear angle term as a linear combination  sum q_i * atom_i + q_pi * pi + q_0  with rational
+    coefficients (e.g. (a/(pi/180) + b/(pi/180) - 90) * (pi/180) -> a + b - pi/2), so that angle addition applies.
+    Exact polynomial/rational normalisation (sympy.cancel); returns None when the term is not of that form."""
+    try:
+        import sympy
+    except Exception:
+        return None
+    atoms = {}
+
+    def conv(t):
+        if z3.is_rational_value(t):
+            return sympy.Rational(t.numerator_as_long(), t.denominator_as_long())
+        if z3.is_int_value(t):
+            return sympy.Integer(t.as_long())
+        if t.eq(PI.e):
+            return sympy.Symbol('PI__', positive=True)
+        if z3.is_add(t):
+            return sympy.Add(*[conv(t.arg(i)) for i in range(t.num_args())])
+        if z3.is_mul(t):
+            return sympy.Mul(*[conv(t.arg(i)) for i in range(t.num_args())])
+        if z3.is_sub(t):
+            r = conv(t.arg(0))
+            for i in range(1, t.num_args()):
+                r = r - conv(t.arg(i))
+            return r
+        if z3.is_div(t):
+            return conv(t.arg(0)) / conv(t.arg(1))
+        if z3.is_app_of(t, z3.Z3_OP_UMINUS):
+            return -conv(t.arg(0))
+        if z3.is_app_of(t, z3.Z3_OP_TO_REAL):
+            return conv(t.arg(0))
+        if z3.is_app_of(t, z3.Z3_OP_POWER) and z3.is_int_value(t.arg(1)):
+            return conv(t.arg(0)) ** t.arg(1).as_long()
+        name = 'A%d__' % t.get_id()
+        atoms[name] = t
+        return sympy.Symbol(name, real=True)
+    try:
+        ex = sympy.cancel(sympy.together(conv(e)))
+        syms = [x for x in ex.free_symbols]
+        poly = sympy.Poly(ex, *syms) if syms else None
+    except Exception:
+        return None
+    if poly is None:
+        return None
+    if poly.total_degree() > 1:
+        return None
+    terms = []
+    for mon, coeff in poly.terms():
+        if not coeff.is_Rational:
+            return None
+        q = z3.RealVal(str(sympy.Rational(coeff)))
+        if sum(mon) == 0:
+            terms.append(q)
+            continue
+        sym = syms[list(mon).index(1)]
+        zt = PI.e if sym.name == 'PI__' else atoms[sym.name]
+        if zt.sort() != z3.RealSort():
+            zt = z3.ToReal(zt)
+        terms.append(q * zt)
+    if not terms:
+        return z3.RealVal(0)
+    return z3.simplify(z3.Sum(*terms) if len(terms) > 1 else terms[0])
+
+
+def _is_nonlinear(e):
+    if z3.is_div(e):
+        return True
+    if z3.is_mul(e):
+        nonnum = [e.arg(i) for i in range(e.num_args()) if not z3.is_rational_value(e.arg(i))]
+        if len(nonnum) > 1:
+            return True
+        return any(_is_nonlinear(a) for a in nonnum)
+    if z3.is_add(e) or z3.is_sub(e) or z3.is_app_of(e, z3.Z3_OP_UMINUS):
+        return any(_is_nonlinear(e.arg(i)) for i in range(e.num_args()))
+    return False
+
+
 def trig_expr(I, e):
+    if _is_nonlinear(e):
+        lin = _linearize(e)
+        if lin is not None and not lin.eq(e):
+            e = lin
     key = ('trigx', e.get_id())
     c = I.ctx.trig_cache.get(key)
     if c is not None:
@@ -180,7 +269,7 @@ def np_arctan2(I, y, x):
     key = ('atan2', zreal(y).get_id(), zreal(x).get_id())
     c = I.ctx.trig_cache.get(key)
     if c is None:
-        v = I.ctx.fresh('atan2', 'real')
+        v = Sym(ATAN2F(zreal(y), zreal(x)), 'real')
         h = np_hypot(I, x, y)
         cs, sn = trig(I, v)
         nz = z3.Or(zreal(x) != 0, zreal(y) != 0)
